@@ -14,7 +14,7 @@ Engine E1.
 """
 import sys
 import traceback
-from boltons.tbutils import ParsedException, ExceptionInfo, TracebackInfo
+from boltons.tbutils import ParsedException, ExceptionInfo, TracebackInfo, ContextualExceptionInfo, ContextualTracebackInfo
 from vf.rt import cz, pin, pinval, assume, fail, done, notrace
 from vf.check import Ob
 
@@ -165,12 +165,28 @@ def _plain(nxt):
     return nxt()
 
 
+def _fin(nxt):
+    # a frame that keeps running after the failing call: its current line moves on, the traceback's line does not
+    try:
+        return nxt()
+    finally:
+        _fin.count = getattr(_fin, 'count', 0) + 1
+
+
+def _reraise(nxt):
+    try:
+        return nxt()
+    except Exception:
+        _reraise.count = getattr(_reraise, 'count', 0) + 1
+        raise
+
+
 def _live_body(kinds, ti, mi):
     etype = EXC_TYPES[ti]
     exc = etype(MESSAGES[mi]) if MESSAGES[mi] else etype()
     call = lambda: _raiser(exc)                                 # noqa: E731
     for k in reversed(kinds):
-        fn = [_plain, _lam, _nosrc, _generated, _evlam][k]
+        fn = [_plain, _lam, _nosrc, _generated, _evlam, _fin, _reraise][k]
         call = (lambda fn=fn, nxt=call: fn(nxt))
     try:
         call()
@@ -179,6 +195,8 @@ def _live_body(kinds, ti, mi):
         et, ev, tb = sys.exc_info()
         ei = ExceptionInfo.from_exc_info(et, ev, tb)
         ti_ = TracebackInfo.from_traceback(tb)
+        cei = ContextualExceptionInfo.from_exc_info(et, ev, tb)
+        cti = ContextualTracebackInfo.from_traceback(tb)
         std = traceback.extract_tb(tb)
         std_text = ''.join(traceback.format_exception(et, ev, tb))
     if len(ei.tb_info.frames) != len(std) or len(ti_.frames) != len(std):
@@ -188,6 +206,15 @@ def _live_body(kinds, ti, mi):
             return fail('frame_fields_vs_traceback_module', '%r vs %r' % (cp, fs))
         if str(cp.line).strip() != (fs.line or ''):
             return fail('frame_source_vs_traceback_module', '%r vs %r' % (str(cp.line), fs.line))
+    # the contextual subclasses list the same frames (plus locals and surrounding lines)
+    for frames in (cei.tb_info.frames, cti.frames):
+        if len(frames) != len(std):
+            return fail('contextual_frame_count')
+        for cp, fs in zip(frames, std):
+            if cp.module_path != fs.filename or cp.lineno != fs.lineno or cp.func_name != fs.name:
+                return fail('contextual_frame_fields_vs_traceback_module', '%r vs %r' % (cp, fs))
+            if str(cp.line).strip() != (fs.line or ''):
+                return fail('contextual_frame_source_vs_traceback_module', '%r vs %r' % (str(cp.line), fs.line))
     d = ei.to_dict()
     if [f['lineno'] for f in d['exc_tb']['frames']] != [fs.lineno for fs in std]:
         return fail('to_dict_frames')
@@ -207,8 +234,10 @@ def live_law(depth: int, k0: int, k1: int, k2: int, k3: int, ti: int, mi: int) -
     pre: 1 <= depth <= 4
     post: _
     """
-    depth = cz(depth, 1, pinval('dmax', 3))
-    kinds = [cz(k, 0, 4) for k in [k0, k1, k2, k3][:depth]]
+    depth = cz(depth, pinval('dmin', 1), pinval('dmax', 3))
+    kinds = [cz(k, 0, 6) for k in [k0, k1, k2, k3][:depth]]
+    if pinval('k0') is not None:
+        assume(kinds[0] == pinval('k0'))
     ti = cz(ti, 0, len(EXC_TYPES) - 1)
     mi = cz(mi, 0, len(MESSAGES) - 1)
     with notrace():
@@ -221,5 +250,9 @@ def obligations(tier):
     T = 170 if q else 1500
     for fi in range(len(FIELDS)):
         obs.append(Ob('text_struct_law', timeout=T, pins={'field': fi, 'fmax': 2 if q else 3, 'lmax': 1 if q else 2}))
-    obs.append(Ob('live_law', timeout=T, pins={'dmax': 3 if q else 4}, need_kinds=('empty_message', 'message')))
+    obs.append(Ob('live_law', timeout=T, pins={'dmin': 1, 'dmax': 2}, need_kinds=('empty_message', 'message')))
+    for k0 in range(7):
+        obs.append(Ob('live_law', timeout=T, pins={'dmin': 3, 'dmax': 3, 'k0': k0}, need_kinds=('empty_message', 'message')))
+        if not q:
+            obs.append(Ob('live_law', timeout=T, pins={'dmin': 4, 'dmax': 4, 'k0': k0}, need_kinds=('empty_message', 'message')))
     return obs
